@@ -257,8 +257,21 @@ def clause6(P, res):
                                  "than the dequeue's own outcome): items left behind wake nobody. " + row["why"], where=batons[0].loc)
                 else:
                     res.holds(rid, k, f"every successful dequeue is followed by {row['baton']}", where=batons[0].loc)
-        live_b = baton.live_positions()
-        pops = [e for e in baton.calls() if e.pos in live_b and ((e.method in ("pop_front", "pop_back", "pop") and "waiters" in baton.path_of_operand(e.args[0])) or e.method == "handoff_session")]
+        def waiter_takes(bd, depth=0):
+            """live calls of `bd` that take a waiter off the list, directly or through a helper of the same type (an extracted wake helper is the same wake)"""
+            live = bd.live_positions()
+            out = []
+            for e in bd.calls():
+                if e.pos not in live:
+                    continue
+                if (e.method in ("pop_front", "pop_back", "pop") and e.args and "waiters" in bd.path_of_operand(e.args[0])) or e.method == "handoff_session":
+                    out.append(e)
+                elif depth < 2:
+                    hb = P.body(e.callee_resolved or e.callee) or P.body(e.callee)
+                    if hb is not None and hb.id != bd.id and hb.id.rsplit("::", 1)[0] == baton.id.rsplit("::", 1)[0] and waiter_takes(hb, depth + 1):
+                        out.append(e)
+            return out
+        pops = waiter_takes(baton)
         k = f"{row['id']}:{baton.id}"
         if pops:
             res.holds(rid, k, f"live path takes a waiter at {pops[0].loc}", where=pops[0].loc, witness=[f"multi-item publisher {b.id}" for b in batchers[:3]])
